@@ -1109,8 +1109,13 @@ fn run_case<C: Serialize, F: Fn(&C, &mut Stats) -> Result<(), Fail>>(f: &F, case
         serde_json::to_value(c).unwrap_or(Value::Null)
     }
     CURRENT.with(|c| c.set(Some((case as *const C as *const (), ser::<C> as fn(*const ()) -> Value))));
+    TAPE_OVERRUNS.with(|c| c.set(0));
     let r = catch_unwind(AssertUnwindSafe(|| f(case, st)));
     CURRENT.with(|c| c.set(None));
+    let over = TAPE_OVERRUNS.with(|c| c.get());
+    if over > 8 {
+        st.class("case_whose_choice_tape_ran_out(more_than_8_choices_defaulted)");
+    }
     match r {
         Ok(r) => r,
         Err(_) => {
@@ -1126,6 +1131,10 @@ fn run_case<C: Serialize, F: Fn(&C, &mut Stats) -> Result<(), Fail>>(f: &F, case
 // choice tape: all structure is derived from a generated Vec<u16>, so proptest shrinks the whole
 // construction as one value (shorter tape, smaller numbers = earlier alternatives).
 
+thread_local! {
+    static TAPE_OVERRUNS: std::cell::Cell<u64> = const { std::cell::Cell::new(0) };
+}
+
 pub struct Tape<'a> {
     data: &'a [u16],
     pos: usize,
@@ -1136,7 +1145,15 @@ impl<'a> Tape<'a> {
         Tape { data, pos: 0 }
     }
     pub fn raw(&mut self) -> u16 {
-        let v = self.data.get(self.pos).copied().unwrap_or(0);
+        let v = match self.data.get(self.pos) {
+            Some(v) => *v,
+            None => {
+                // reading past the end yields zeros (the "first alternative"): fine for shrinking, but a
+                // generator whose tapes are too short degenerates silently - counted per case
+                TAPE_OVERRUNS.with(|c| c.set(c.get() + 1));
+                0
+            }
+        };
         self.pos += 1;
         v
     }
@@ -1160,6 +1177,14 @@ impl<'a> Tape<'a> {
     }
 }
 
+/// Choice tapes: a quarter of them have a length in `len` (small cases, and the range within which a
+/// failing case can shrink), three quarters are two to four times as long as the upper end, so that
+/// the builders rarely run out of choices (measured: with `len` alone 25-60 % of the cases of most
+/// parts read past the end of their tape and fell back to "first alternative" for the rest).
 pub fn tape(len: std::ops::Range<usize>) -> impl Strategy<Value = Vec<u16>> {
-    proptest::collection::vec(proptest::num::u16::ANY, len)
+    let hi = len.end.max(len.start + 1);
+    proptest::prop_oneof![
+        1 => proptest::collection::vec(proptest::num::u16::ANY, len),
+        3 => proptest::collection::vec(proptest::num::u16::ANY, 2 * hi..4 * hi),
+    ]
 }
